@@ -62,6 +62,8 @@ class Arity(object):
             if any(x.op == "star" for x in t.a):
                 return None
             return ("tuple", len(t.a))
+        if op == "list" and not t.a:
+            return None  # an empty list literal: nothing to unpack, no arity claim
         if op == "list":
             if any(x.op == "star" for x in t.a):
                 return None
